@@ -4,6 +4,7 @@ pub mod bf;
 pub mod curves;
 pub mod hashes;
 pub mod pf;
+pub mod schemes;
 
 pub fn unhex(s: &str) -> Vec<u8> {
     let s = s.as_bytes();
